@@ -88,6 +88,7 @@ type State struct {
 	mapOrders bool
 	facts     map[int]bool
 	splits    map[string][]*Str
+	rec       *Recorder
 }
 
 // addPC appends t to the path condition and records simple facts.
@@ -195,6 +196,9 @@ func (st *State) Clone() *State {
 	if st.frameMon != nil {
 		fm := *st.frameMon
 		n.frameMon = &fm
+	}
+	if st.rec != nil {
+		n.rec = st.rec.clone()
 	}
 	n.facts = make(map[int]bool, len(st.facts))
 	for k, v := range st.facts {
